@@ -499,12 +499,9 @@ func (c *c16cfg) body(depth int) {
 		for id, addr := range snap.Hosts {
 			if _, ok := known[id]; !ok {
 				if rejectedNow(id) {
-					// at rest = a ring refresh has completed since a rejected node was last contacted (the control
-					// connection stores a contact point's details before it evaluates the filter; the next refresh removes them)
-					if (id == hF.id || id == hG.id) && lastRejContact >= 0 && len(peersLog) <= lastRejContact {
-						continue
-					}
-					vs.Failf("c16:host-filter:rejected-host-known", "host %s@%s is rejected by the host filter (%s) but is in the ring, and a ring refresh has completed since a rejected node was last contacted %s; snapshot %+v", id[len(id)-2:], addr, c.filter, where, snap)
+					// (until /repo c858f28 the control connection stored a contact point's details before evaluating the filter,
+					// and the oracle had to wait for the next refresh; a rejected node must now never be known at rest)
+					vs.Failf("c16:host-filter:rejected-host-known", "host %s@%s is rejected by the host filter (%s) but is in the ring %s; snapshot %+v", id[len(id)-2:], addr, c.filter, where, snap)
 					continue
 				}
 				vs.Failf("c16:vanished-host-still-known", "host %s@%s is in the ring but the cluster no longer reports it %s; snapshot %+v", id[len(id)-2:], addr, where, snap)
